@@ -312,13 +312,16 @@ def _child(wfd, root, argv, cwd, kspec, inject, env, pre, post, want_events):
         os._exit(0)
 
 
-def run_cond(root, argv, cwd=None, kspec=None, inject=None, env=None, timeout=120,
+def run_cond(root, argv, cwd=None, kspec=None, inject=None, env=None, timeout=None,
              pre=None, post=None, want_events=True):
     """Run one `cond <argv>` invocation in a forked child; return the result dict.
 
     result keys: status (int | "deadlock" | "killed"), stdout, stderr (bytes),
     events (list), kernel (summary), uncaught, inject, lines
     """
+    if timeout is None:
+        # virtual-kernel runs take milliseconds; real children may write megabytes
+        timeout = int(os.environ.get("VERIF_RUN_TIMEOUT", "30" if kspec is not None else "120"))
     r, w = os.pipe()
     sys.stdout.flush()
     sys.stderr.flush()
